@@ -19,7 +19,8 @@ from ..seams.simaddr import SimAddresses
 
 TREE_ROUTES = ["treelist_get", "treelist_get_stream", "treelist_get_path", "tree_get", "treelist_read", "treelist_read_into_nonempty",
                "treelist_read_offset", "treelist_get_offset",
-               "yield", "yield", "treearray_read", "dataset_get", "dataset_read", "treelist_get_collection"]
+               "yield", "yield", "treearray_read", "dataset_get", "dataset_read", "treelist_get_collection",
+               "yield_multi", "treearray_read_from_files"]
 MATRIX_ROUTES = ["matrix_get", "matrix_get_stream", "matrix_get_path", "dataset_matrix"]
 
 
@@ -153,7 +154,10 @@ def make_tree_doc(rng, like=None):
             cols.append(k)
         return {"schema": "nexus", "text": text, "collections": cols, "labels": labs, "style": style, "raw": raw}
     # nexml: written by the library (no template writer of our own)
-    ns = dendropy.TaxonNamespace(labs)
+    order = list(labs)
+    if like is not None:
+        rng.shuffle(order)      # the second document binds the same otu ids (the writer numbers them) to other labels
+    ns = dendropy.TaxonNamespace(order)
     tl = dendropy.TreeList(taxon_namespace=ns)
     k = rng.randint(1, 3)
     for _ in range(k):
@@ -285,6 +289,7 @@ class C13(Machine):
                               "TreeList.get delivers %d trees, per collection %s, document holds %s" % (len(ref_all), [len(c) for c in ref_cols], cols))
                 return
             refs.append((text, cols, ref_all, ref_cols))
+        self._refs = refs
         ns = dendropy.TaxonNamespace()
         for k_ in range(cfg.get("foreign_taxa", 0)):
             ns.new_taxon(label="zz pre %d" % k_)       # the shared namespace serves other data as well
@@ -448,6 +453,31 @@ class C13(Machine):
             iters.append([iter(it), [], False, ref_all])
             rec.probe("iterator_started")
             return None, None
+        if route in ("yield_multi", "treearray_read_from_files"):
+            # several sources in one call: this document, then the session's other document (or this one again)
+            other = self._refs[(st.get("doc", 0) + 1) % len(self._refs)]
+            srcs = [(text, ref_all), (other[0], other[2])]
+            if st["ti"] % 3 == 0:
+                srcs.append((text, ref_all))
+            if route == "yield_multi":
+                it = dendropy.Tree.yield_from_files(files=[self._stream(t_, st, rec) for t_, _ in srcs], schema=schema, taxon_namespace=ns, **kw)
+                iters.append([iter(it), [], False, [c for _, r_ in srcs for c in r_]])
+                rec.probe("iterator_over_several_files")
+                return None, None
+            flat = [c for _, r_ in srcs for c in r_]
+            if len(set(c["rooted"] for c in flat)) != 1 or len(set(len(_leaves(c["root"])) for c in flat)) != 1:
+                return None, None      # mixed rooting is refused by TreeArray by documentation
+            off = abs(st.get("off", 0)) % (min(len(r_) for _, r_ in srcs) + 1)      # burn-in: skipped in EVERY source
+            ta = dendropy.TreeArray(taxon_namespace=ns)
+            ta.read_from_files(files=[self._stream(t_, st, rec) for t_, _ in srcs], schema=schema, tree_offset=off, **kw)
+            ta2 = dendropy.TreeArray(taxon_namespace=ns)
+            for t_, _ in srcs:
+                for tr in dendropy.TreeList.get(data=t_, schema=schema, taxon_namespace=ns, **kw)[off:]:
+                    ta2.add_tree(tr)
+            rec.probe("treearray_from_several_files" + ("_with_burnin" if off else ""))
+            a = [(tuple(ta._tree_split_bitmasks[i]), tuple(ta._tree_edge_lengths[i]), ta._tree_weights[i]) for i in range(len(ta))]
+            b = [(tuple(ta2._tree_split_bitmasks[i]), tuple(ta2._tree_edge_lengths[i]), ta2._tree_weights[i]) for i in range(len(ta2))]
+            return [repr(x) for x in a], [repr(x) for x in b]
         if route == "treearray_read":
             rooted_vals = set(c["rooted"] for c in ref_all)
             if len(rooted_vals) != 1 or len(set(len(_leaves(c["root"])) for c in ref_all)) != 1:
